@@ -25,6 +25,7 @@ import (
 	"strconv"
 	"strings"
 	"sync"
+	"sync/atomic"
 	"testing"
 	"time"
 
@@ -57,15 +58,16 @@ type vhS3Cfg struct {
 }
 
 type vhStep struct {
-	A     string          `json:"a"`
-	Api   string          `json:"api"`
-	Tg    [][]any         `json:"tg"`
-	Perms vhPerms         `json:"perms"`
-	Arg   string          `json:"arg"`
-	Lat   int             `json:"lat"`
-	Err   bool            `json:"err"`
-	Probe string          `json:"probe"`
-	Raw   json.RawMessage `json:"-"`
+	A      string          `json:"a"`
+	Api    string          `json:"api"`
+	Tg     [][]any         `json:"tg"`
+	Perms  vhPerms         `json:"perms"`
+	Arg    string          `json:"arg"`
+	Lat    int             `json:"lat"`
+	Err    bool            `json:"err"`
+	Probe  string          `json:"probe"`
+	S3Fail [][]any         `json:"s3fail"`
+	Raw    json.RawMessage `json:"-"`
 }
 
 // vhPerms is the principal's ACL entry: allow / deny rules as [action, name] pairs and the default policy.
@@ -104,7 +106,7 @@ type vhS3 struct {
 	e        *vhEnv
 	fail     map[string]bool   // "topic|partition"
 	nfail    int               // refused upload calls (each one is recorded by the log as one failed S3 operation)
-	healthAt map[string]string // "topic|partition" -> rating when its segment upload started
+	healthAt map[string]string // "topic|partition" -> rating when its first upload (segment or index) started
 }
 
 func vhPartOfKey(key string) string {
@@ -135,7 +137,11 @@ func (s *vhS3) UploadSegment(ctx context.Context, key string, body []byte) error
 
 func (s *vhS3) UploadIndex(ctx context.Context, key string, body []byte) error {
 	pk := vhPartOfKey(key)
+	st := string(s.e.h.s3Health.State())
 	s.mu.Lock()
+	if _, ok := s.healthAt[pk]; !ok {
+		s.healthAt[pk] = st
+	}
 	refuse := s.fail[pk]
 	if refuse {
 		s.nfail++
@@ -158,33 +164,60 @@ func (s *vhS3) arm(fail []vhTarget) {
 	s.mu.Unlock()
 }
 
+// vhGate parks the lease manager's monitor goroutine of one expired session (scheduler gate "lease.monitor").
+type vhGate struct {
+	id       string
+	parked   chan struct{}
+	release  chan struct{}
+	returned chan struct{}
+	once     sync.Once
+	relOnce  sync.Once
+}
+
+var vhCurGate atomic.Pointer[vhGate]
+
+func vhGateFn(point, id string) {
+	g := vhCurGate.Load()
+	if g == nil || point != "lease.monitor" || id != g.id {
+		return
+	}
+	first := false
+	g.once.Do(func() { first = true })
+	if first {
+		close(g.parked)
+		<-g.release
+		close(g.returned)
+	}
+}
+
 type vhSample struct {
 	lat time.Duration
 	err bool
 }
 
 type vhEnv struct {
-	t       *testing.T
-	sched   vhSched
-	h       *handler
-	store   *vhStore
-	s3      *storage.MemoryS3Client
-	s3w     *vhS3
-	gate    *vhGate
-	fed     []vhSample
-	hcfg    broker.S3HealthConfig
-	member  string
-	gen     int32
-	corr    int32
-	etcd    bool
-	admin   *clientv3.Client
-	cliA    *clientv3.Client
-	cliB    *clientv3.Client
-	leaseA  *metadata.PartitionLeaseManager
-	leaseB  *metadata.PartitionLeaseManager
-	estore  *metadata.EtcdStore
-	leaseUp bool
-	nreq    int
+	t        *testing.T
+	sched    vhSched
+	h        *handler
+	store    *vhStore
+	s3       *storage.MemoryS3Client
+	s3w      *vhS3
+	gate     *vhGate
+	fed      []vhSample
+	hcfg     broker.S3HealthConfig
+	member   string
+	gen      int32
+	corr     int32
+	etcd     bool
+	admin    *clientv3.Client
+	cliA     *clientv3.Client
+	cliB     *clientv3.Client
+	leaseA   *metadata.PartitionLeaseManager
+	leaseB   *metadata.PartitionLeaseManager
+	estore   *metadata.EtcdStore
+	leaseUp  bool
+	sessDead bool
+	nreq     int
 }
 
 func vhBatch() []byte {
@@ -488,6 +521,46 @@ func (e *vhEnv) do(ctx context.Context, api string, tgs []vhTarget) (map[string]
 				out[vhKey(tp.Topic, pp.Partition)] = vhReply{code: pp.ErrorCode, data: len(pp.RecordBatches) > 0}
 			}
 		}
+	case "FetchById":
+		const v = 13
+		meta, err := e.store.Store.Metadata(ctx, nil)
+		if err != nil {
+			t.Fatalf("metadata for topic ids: %v", err)
+		}
+		ids := map[string][16]byte{}
+		names := map[[16]byte]string{}
+		for _, tp := range meta.Topics {
+			if tp.Topic != nil {
+				ids[*tp.Topic] = tp.TopicID
+				names[tp.TopicID] = *tp.Topic
+			}
+		}
+		req := kmsg.NewPtrFetchRequest()
+		req.ReplicaID = -1
+		req.MaxWaitMillis = 0
+		req.MaxBytes = 1 << 20
+		for _, n := range order {
+			id, ok := ids[n]
+			if !ok {
+				t.Fatalf("FetchById: topic %s has no id", n)
+			}
+			rt := kmsg.NewFetchRequestTopic()
+			rt.TopicID = id // the name field stays empty, as a v13 client sends it
+			for _, p := range parts[n] {
+				rp := kmsg.NewFetchRequestTopicPartition()
+				rp.Partition = p
+				rp.FetchOffset = 0
+				rp.PartitionMaxBytes = 1 << 20
+				rt.Partitions = append(rt.Partitions, rp)
+			}
+			req.Topics = append(req.Topics, rt)
+		}
+		resp := vhDecode(t, v, call(hdr(protocol.APIKeyFetch, v), req), kmsg.NewPtrFetchResponse())
+		for _, tp := range resp.Topics {
+			for _, pp := range tp.Partitions {
+				out[vhKey(names[tp.TopicID], pp.Partition)] = vhReply{code: pp.ErrorCode, data: len(pp.RecordBatches) > 0}
+			}
+		}
 	case "ListOffsets", "ListOffsetsLatest", "ListOffsetsEarliest":
 		const v = 4
 		ts := int64(-1)
@@ -780,7 +853,15 @@ func (e *vhEnv) setup(ctx context.Context, endpoints []string) {
 			return c
 		}
 		e.cliA, e.cliB = newCli(), newCli()
-		e.leaseA = metadata.NewPartitionLeaseManager(e.cliA, metadata.PartitionLeaseConfig{BrokerID: "A", LeaseTTLSeconds: 60, Logger: testLoggerVH()})
+		// long TTL: no lease expires by itself during a schedule; schedules with a SessionExpire step use a short one
+		// because the client notices a revoked lease only at its next keepalive (TTL/3)
+		ttl := 60
+		for _, st := range e.sched.Steps {
+			if st.A == "SessionExpire" {
+				ttl = 6
+			}
+		}
+		e.leaseA = metadata.NewPartitionLeaseManager(e.cliA, metadata.PartitionLeaseConfig{BrokerID: "A", LeaseTTLSeconds: ttl, Logger: testLoggerVH()})
 		e.leaseB = metadata.NewPartitionLeaseManager(e.cliB, metadata.PartitionLeaseConfig{BrokerID: "B", LeaseTTLSeconds: 60, Logger: testLoggerVH()})
 		h.leaseManager = e.leaseA
 		e.leaseUp = true
@@ -829,6 +910,12 @@ func (e *vhEnv) setup(ctx context.Context, endpoints []string) {
 }
 
 func (e *vhEnv) teardown() {
+	if e.gate != nil {
+		g := e.gate
+		g.relOnce.Do(func() { close(g.release) })
+		e.gate = nil
+	}
+	vhCurGate.Store(nil)
 	if e.h != nil && e.h.coordinator != nil {
 		e.h.coordinator.Stop()
 	}
@@ -906,6 +993,8 @@ func TestVerifHandlerReplay(t *testing.T) {
 		}
 		defer admin.Close()
 	}
+	metadata.VerifGate = vhGateFn
+	defer func() { metadata.VerifGate = nil }()
 	ctx := context.Background()
 	n := 0
 	for i, s := range scheds {
@@ -970,6 +1059,77 @@ func TestVerifHandlerReplay(t *testing.T) {
 				}
 				e.leaseUp = false
 				emit(map[string]any{"ev": "LeaseDown", "arg": ""})
+			case "SessionExpire":
+				// the broker's lease is revoked in etcd; its monitor goroutine is parked at the gate lease.monitor
+				var leaseID clientv3.LeaseID
+				for _, tn := range vhTopicSeq {
+					for q := 0; q < vhNP && leaseID == 0; q++ {
+						if e.leaseA.Owns(tn, int32(q)) {
+							c, cancel := context.WithTimeout(ctx, 3*time.Second)
+							resp, err := e.admin.Get(c, fmt.Sprintf("%s/%s/%d", metadata.PartitionLeasePrefix(), tn, q))
+							cancel()
+							if err != nil || len(resp.Kvs) != 1 || string(resp.Kvs[0].Value) != "A" {
+								t.Fatalf("SessionExpire: lease key of %s/%d: %v %+v", tn, q, err, resp)
+							}
+							leaseID = clientv3.LeaseID(resp.Kvs[0].Lease)
+						}
+					}
+				}
+				if leaseID == 0 {
+					t.Fatalf("SessionExpire: broker owns nothing")
+				}
+				g := &vhGate{id: fmt.Sprintf("A|%x", int64(leaseID)), parked: make(chan struct{}), release: make(chan struct{}), returned: make(chan struct{})}
+				e.gate = g
+				vhCurGate.Store(g)
+				c, cancel := context.WithTimeout(ctx, 5*time.Second)
+				_, err := e.admin.Revoke(c, leaseID)
+				cancel()
+				if err != nil {
+					t.Fatalf("SessionExpire: revoke: %v", err)
+				}
+				select {
+				case <-g.parked:
+				case <-time.After(30 * time.Second):
+					t.Fatalf("SessionExpire: the session did not end / gate lease.monitor not reached (hook missing?)")
+				}
+				e.sessDead = true
+				emit(map[string]any{"ev": "SessionExpire", "arg": ""})
+			case "MonitorRun":
+				g := e.gate
+				if g == nil {
+					t.Fatalf("MonitorRun without a parked monitor")
+				}
+				g.relOnce.Do(func() { close(g.release) })
+				select {
+				case <-g.returned:
+				case <-time.After(10 * time.Second):
+					t.Fatalf("MonitorRun: gate did not return")
+				}
+				if e.sessDead {
+					// the dead session was not replaced: the monitor clears the ownership map; wait for exactly that
+					deadline := time.Now().Add(10 * time.Second)
+					for {
+						held := false
+						for _, tn := range vhTopicSeq {
+							for q := 0; q < vhNP; q++ {
+								if e.leaseA.Owns(tn, int32(q)) {
+									held = true
+								}
+							}
+						}
+						if !held {
+							break
+						}
+						if time.Now().After(deadline) {
+							t.Fatalf("MonitorRun: ownership not cleared")
+						}
+						time.Sleep(2 * time.Millisecond)
+					}
+					e.sessDead = false
+				}
+				e.gate = nil
+				vhCurGate.Store(nil)
+				emit(map[string]any{"ev": "MonitorRun", "arg": ""})
 			case "Req":
 				e.nreq++
 				tgs := vhTargets(step.Tg)
@@ -988,8 +1148,17 @@ func TestVerifHandlerReplay(t *testing.T) {
 						owner0[j] = e.etcdOwner(ctx, tg)
 					}
 				}
+				if leased && e.sessDead {
+					for _, tg := range tgs {
+						if !e.leaseA.Owns(tg.name, tg.part) {
+							e.sessDead = false // an acquisition attempt replaces the dead session
+						}
+					}
+				}
+				e.s3w.arm(vhTargets(step.S3Fail))
 				before, _ := e.project(ctx)
 				replies, replied := e.do(ctx, step.Api, tgs)
+				healthAfter := string(e.h.s3Health.State())
 				after, st := e.project(ctx)
 				items := make([]map[string]any, 0, len(tgs))
 				for j, tg := range tgs {
@@ -1001,8 +1170,15 @@ func TestVerifHandlerReplay(t *testing.T) {
 					if replied && !ok {
 						t.Fatalf("no reply entry for %s in %s %v: %v", key, step.Api, tgs, replies)
 					}
+					// rating of the monitor while the broker wrote this partition (start of its segment upload), else after the request
+					e.s3w.mu.Lock()
+					hat, uploaded := e.s3w.healthAt[vhKey(tg.name, tg.part)]
+					e.s3w.mu.Unlock()
+					if !uploaded {
+						hat = healthAfter
+					}
 					it := map[string]any{"name": tg.name, "part": tg.part, "code": r.code, "data": r.data, "replied": replied,
-						"owner0": "", "owns1": false, "owner1": ""}
+						"owner0": "", "owns1": false, "owner1": "", "healthAt": hat, "uploaded": uploaded}
 					if leased {
 						it["owner0"] = owner0[j]
 						it["owns1"] = e.leaseA.Owns(tg.name, tg.part)
@@ -1013,6 +1189,9 @@ func TestVerifHandlerReplay(t *testing.T) {
 				wire := step.Api
 				if strings.HasPrefix(wire, "ListOffsets") {
 					wire = "ListOffsets"
+				}
+				if wire == "FetchById" {
+					wire = "Fetch"
 				}
 				perms := step.Perms
 				if perms.Allow == nil {
@@ -1026,6 +1205,9 @@ func TestVerifHandlerReplay(t *testing.T) {
 					"items": items, "changed": vhChanged(before, after), "st": st}
 				if step.Probe != "" {
 					line["probe"] = step.Probe
+					e.s3w.mu.Lock()
+					line["nfail"] = e.s3w.nfail
+					e.s3w.mu.Unlock()
 				}
 				emit(line)
 			default:
